@@ -124,7 +124,7 @@ def wrap(target, line, level, width, indentation="    "):
 def check(target, line, level, width, indentation="    "):
     """returns ((sub, detail) or None, lines)"""
     try:
-        with kernel.time_limit(20):
+        with kernel.time_limit(120):
             lines = wrap(target, line, level, width, indentation)
     except kernel.Budget:
         return ("budget", "wrap_line did not return"), None
